@@ -59,3 +59,25 @@ pub fn size_constants<W, R, T>(_rt: &RTCell<W, R, T>) -> Vec<(&'static str, usiz
         ("rc", size_of::<Rc<ManagedXValue<W, R, T>>>()),
     ]
 }
+
+/// `XValue::size` of an evaluated binding, and for a native value its static and dynamic part
+/// (`None` for an error value)
+pub fn value_size_parts<W: 'static, R: 'static, T: 'static>(
+    v: &crate::root_runtime_scope::EvaluatedValue<W, R, T>,
+) -> Option<(usize, Option<(usize, usize)>)> {
+    match v {
+        Err(_) => None,
+        Ok(v) => {
+            let parts = match &v.value {
+                XValue::Native(n) => Some((n.static_size(), n.dyn_size())),
+                _ => None,
+            };
+            Some((v.value.size(), parts))
+        }
+    }
+}
+
+/// more platform constants of the size model
+pub fn size_constants2() -> Vec<(&'static str, usize)> {
+    vec![("vec", size_of::<Vec<usize>>())]
+}
